@@ -106,7 +106,11 @@ LogOne(m, e, C) ==
       h == GetI(m.ph, p)
       m1 == Flag(m, GetB(m.term, p), "C01", checks)
       m2 == Flag(m1, h > 0 /\ GetB(m.unsubd, h), "C02", checks)
-      m3 == Flag(m2, h > 0 /\ GetB(m.closed, h), "C17", checks)
+      (* C17, last clause, seen through a pipeline whose subscription is a composite (merge_all / flat_map ...): a   *)
+      (* subscription appended after the composite was unsubscribed must be torn down at once -- if it is left running *)
+      (* its notifications arrive after unsubscribe() returned (cases marked "C17late")                                *)
+      m3 == Flag(Flag(m2, h > 0 /\ GetB(m.closed, h), "C17", checks),
+                 "C17late" \in checks /\ h > 0 /\ GetB(m.unsubd, h), "C17", checks)
       m4 == [m3 EXCEPT !.plog = SetAt(@, p, Append(GetS(@, p), <<e.t, e.v>>), <<>>),
                        !.pat = SetAt(@, p, Append(GetS(@, p), e.at), <<>>)]
       m5 == IF e.t \in {"E", "C"}
